@@ -239,15 +239,18 @@ class Mismatch(Exception):
         self.what, self.detail = what, detail
 
 
+KNOWN_STATISTICS = ("mean", "std", "number", "max", "min")
+
+
 def nan_stats(values):
     """NaN-ignoring mean, population standard deviation, count, maximum."""
     valid = [v for v in values if v != "nan"]
     if not valid:
-        return dict(mean=NAN, std=NAN, number=0, max=NAN)
+        return dict(mean=NAN, std=NAN, number=0, max=NAN, min=NAN)
     mean = math.fsum(valid) / len(valid)
     var = math.fsum((v - mean) ** 2 for v in valid) / len(valid)
     return dict(mean=mean, std=math.sqrt(var), number=len(valid),
-                max=max(valid))
+                max=max(valid), min=min(valid))
 
 
 def collapsed_reference(snap, ref_side, funcs):
@@ -268,8 +271,9 @@ def collapsed_reference(snap, ref_side, funcs):
             stats = [nan_stats([rows[o][c] for o in others])
                      for c in range(width)]
             for f in funcs:
+                stat = funcs[f] if isinstance(funcs, dict) else f
                 entry["%s/%s_%s" % (other, local, f)] = tuple(
-                    s[f] for s in stats)
+                    s[stat] for s in stats)
         out[ref_ids[r][0]] = entry
     return out
 
@@ -315,6 +319,13 @@ def compare_collapsed(collapsed, snap, ref_side, funcs):
                 if len(exp) != len(row) or not all(map(close, exp, row)):
                     return (f + "-wrong", list(map(scalar, exp)), list(row),
                             "%s of reference point id=%s" % (name, ref_id))
+        # statistics nobody asked for in this call (e.g. left over from an
+        # earlier call with a custom collapser)
+        prefix = "%s/%s_" % (other, local)
+        for name in map(str, collapsed.variables):
+            if name.startswith(prefix) and name[len(prefix):] not in funcs \
+                    and name[len(prefix):] in KNOWN_STATISTICS:
+                return ("unrequested-statistic", sorted(funcs), name, "")
     return None
 
 
